@@ -320,7 +320,8 @@ Inductive label :=
 | EditCfg (w t : Z)
 | ParentDies
 | ExitTold                  (* every running child that was told to stop exits with status 0 *)
-| NotifyAll.                (* every running worker notifies *)
+| NotifyAll                 (* every running worker notifies *)
+| NotifyAt (p t : Z).       (* the worker p notified at instant t <= now (its own clock read happened then) *)
 
 Definition zmem (z : Z) (l : list Z) : bool := existsb (Z.eqb z) l.
 
@@ -352,6 +353,19 @@ Definition notify_all (s : st) : st :=
   | _ => s1
   end.
 
+Definition notify_at (s : st) (p t : Z) : st :=
+  match find_kid p (kids s) with
+  | Some c =>
+      if is_running c && negb (c_master c) && (t <=? mono s) then
+        let s1 := set_workers s (set_hb p t (workers s)) in
+        match cur s1 with
+        | PRegister q age hb k => if q =? p then set_pc s1 (PRegister q age t k) else s1
+        | _ => s1
+        end
+      else s
+  | None => s
+  end.
+
 Definition step (s : st) (l : label) : st :=
   match l with
   | Master => master s
@@ -367,6 +381,7 @@ Definition step (s : st) (l : label) : st :=
   | ParentDies => set_orphan s true
   | ExitTold => exit_told s
   | NotifyAll => notify_all s
+  | NotifyAt p t => notify_at s p t
   end.
 
 Definition run (s : st) (ls : list label) : st := fold_left step ls s.
